@@ -337,23 +337,39 @@ def _syncing(parameterized, parameters):
 
 
 @contextmanager
+def _sync_scope(parameterized, updates):
+    """
+    What surrounds the assignments when references are synchronised: the
+    parameters are marked as being synchronised and a constant among them
+    can be rebound.
+    """
+    with edit_constant(parameterized):
+        with _syncing(parameterized, updates):
+            yield
+
+
+@contextmanager
 def edit_constant(parameterized):
     """
-    Temporarily set parameters on Parameterized object to constant=False
-    to allow editing them.
+    Temporarily allow the constant parameters of a Parameterized object
+    to be edited.
     """
-    kls_params = parameterized.param.objects(instance=False)
-    inst_params = parameterized._param__private.params
+    if isinstance(parameterized, Parameterized):
+        # Only this object becomes editable, whatever Parameter objects it
+        # shares with its class and so with other instances: a marker on
+        # the instance (a counter, blocks may overlap), no flag is touched
+        private = parameterized._param__private
+        private.unlocked += 1
+        try:
+            yield
+        finally:
+            private.unlocked -= 1
+        return
+    # A class: the flags of its Parameters
     updated = []
     try:
-        for pname, pobj in (kls_params | inst_params).items():
+        for pname, pobj in parameterized.param.objects(instance=False).items():
             if pobj.constant:
-                # Only this object becomes editable: use its own copy of the
-                # Parameter (created on demand) and leave alone the class-level
-                # Parameter, which all other instances and subclasses share. The
-                # class-level one is only used where instance Parameters are
-                # not supported.
-                pobj = parameterized.param[pname]
                 updated.append(pobj)
                 pobj.constant = False
         yield
@@ -1624,6 +1640,10 @@ class Parameter(_ParameterBase):
             elif not obj._param__private.initialized:
                 _old = obj._param__private.values.get(self.name, self.default)
                 obj._param__private.values[self.name] = val
+            elif obj._param__private.unlocked:
+                # inside edit_constant(obj)
+                _old = obj._param__private.values.get(self.name, self.default)
+                obj._param__private.values[self.name] = val
             else:
                 _old = obj._param__private.values.get(self.name, self.default)
                 if val is not _old:
@@ -1682,7 +1702,7 @@ class Parameter(_ParameterBase):
         """
         if self.readonly:
             raise TypeError("Read-only parameter '%s' cannot be modified" % self.name)
-        if self.constant and obj._param__private.initialized:
+        if self.constant and obj._param__private.initialized and not obj._param__private.unlocked:
             # A reference would keep rebinding the constant whenever its
             # source changes, whatever it resolves to at the moment
             if ref is not None or val is not obj._param__private.values.get(self.name, self.default):
@@ -2271,10 +2291,7 @@ class Parameters:
         # Watchers are called once the values are in place and the object
         # is back to normal: an assignment made by a watcher is an ordinary
         # assignment (it overrides a link, it cannot rebind a constant)
-        with _batch_call_watchers(self_.self):
-            with edit_constant(self_.self):
-                with _syncing(self_.self, updates):
-                    self_.update(updates)
+        self_._assign(updates, scope=_sync_scope(self_.self, updates))
 
     def _resolve_ref(self_, pobj, value, defer=False):
         """
@@ -2322,9 +2339,7 @@ class Parameters:
                 async for new_obj in awaitable:
                     if ref is not Undefined and private.refs.get(pname, Undefined) is not ref:
                         break
-                    with _batch_call_watchers(self_.self):
-                        with _syncing(self_.self, (pname,)):
-                            self_.update({pname: new_obj})
+                    self_._assign({pname: new_obj}, scope=_syncing(self_.self, (pname,)))
             else:
                 # Await outside the syncing scope so that an assignment
                 # made while the awaitable is pending overrides the reference
@@ -2336,9 +2351,7 @@ class Parameters:
                     # Overridden by the awaitable's own code after its last
                     # suspension (a running task cannot be cancelled)
                     return
-                with _batch_call_watchers(self_.self):
-                    with _syncing(self_.self, (pname,)):
-                        self_.update({pname: new_obj})
+                self_._assign({pname: new_obj}, scope=_syncing(self_.self, (pname,)))
         finally:
             # Ensure we clean up but only if the task matches the currrent task
             if private.async_refs.get(pname) is current_task:
@@ -2717,9 +2730,18 @@ class Parameters:
         return _ParametersRestorer(parameters=self_, restore=restore, refs=refs, unset=unset)
 
     def _update(self_, arg=Undefined, /, **kwargs):
-        self_or_cls = self_.self_or_cls
         if arg is not Undefined:
             kwargs = dict(arg, **kwargs)
+        return self_._assign(kwargs)
+
+    def _assign(self_, kwargs, scope=None):
+        """
+        Assign the values in kwargs as one batch. scope: a context manager
+        that only surrounds the assignments themselves (the library's own
+        markers while it synchronises references); the watchers are called
+        after it has been left, as for any other update.
+        """
+        self_or_cls = self_.self_or_cls
 
         trigger_params = [
             k for k in kwargs
@@ -2733,16 +2755,20 @@ class Parameters:
         # argument that is no mapping, a value that cannot be read)
         BATCH_WATCH = self_._BATCH_WATCH
         self_._BATCH_WATCH = True
-        for tp in trigger_params:
-            self_[tp]._mode = 'set'
+        # (the class-level Parameter of an inheriting class is replaced by
+        # its own copy on the first assignment: both are put back)
+        switched = [self_[tp] for tp in trigger_params]
+        for pobj in switched:
+            pobj._mode = 'set'
 
         # param.trigger re-assigns the current values: that is not an
         # assignment by the user, a parameter that follows a reference
         # keeps following it
-        triggering = self_._TRIGGER and self_.self is not None
+        if scope is None and self_._TRIGGER and self_.self is not None:
+            scope = _syncing(self_.self, kwargs)
         assigned = set()
         try:
-            with (_syncing(self_.self, kwargs) if triggering else nullcontext()):
+            with (nullcontext() if scope is None else scope):
                 for (k, v) in kwargs.items():
                     if k not in self_:
                         raise ValueError(f"{k!r} is not a parameter of {self_.cls.__name__}")
@@ -2764,6 +2790,8 @@ class Parameters:
                         p._mode = 'reset'
                         setattr(self_or_cls, tp, p._autotrigger_reset_value)
                     p._mode = 'set-reset'
+                for pobj in switched:
+                    pobj._mode = 'set-reset'
         return restore
 
     # PARAM3_DEPRECATION
@@ -5301,6 +5329,7 @@ class _InstancePrivate:
         'refs',
         'ref_watchers',
         'syncing',
+        'unlocked',
         'watchers',
         'values',
         'explicit_no_refs',
@@ -5320,6 +5349,7 @@ class _InstancePrivate:
         self.initialized = initialized
         self.explicit_no_refs = [] if explicit_no_refs is None else explicit_no_refs
         self.syncing = set()
+        self.unlocked = 0   # > 0 inside edit_constant(this object)
         if parameters_state is None:
             parameters_state = {
                 "BATCH_WATCH": False, # If true, Event and watcher objects are queued.
@@ -5351,6 +5381,7 @@ class _InstancePrivate:
             "watchers": [], # Queue of batched watchers
         }
         self.syncing = set()
+        self.unlocked = 0
 
 
 class Parameterized(metaclass=ParameterizedMetaclass):
